@@ -29,7 +29,7 @@ ASSUMPTIONS = [
 SHARDS = {'quick': 8, 'thorough': 16}
 BUDGET_S = {'quick': 50, 'thorough': 560}
 N_INPUTS = {'quick': 2400, 'thorough': 60000}
-MIN_OBS = {'outcome': {'quick': 1500, 'thorough': 30000}}
+MIN_OBS = {'outcome': {'quick': 500, 'thorough': 8000}}
 STEP_LIMIT = 20_000_000
 
 _STATE: dict = {}
